@@ -11,6 +11,7 @@ def main(argv=None):
     ap.add_argument('--repo', default=os.environ.get('S3TLINT_REPO', '/repo'))
     ap.add_argument('--replay', default=None)
     ap.add_argument('--no-write', action='store_true')
+    ap.add_argument('--list', action='store_true', help='print every obligation')
     args = ap.parse_args(argv)
     try:
         from . import engine
@@ -30,8 +31,12 @@ def main(argv=None):
     worst = 0
     for p in props:
         try:
-            code, _, _ = engine.run_property(p, args.tier, repo=args.repo, write=not args.no_write,
-                                             selftest=run_selftest)
+            code, cx, _ = engine.run_property(p, args.tier, repo=args.repo, write=not args.no_write,
+                                              selftest=run_selftest)
+            if args.list and cx is not None:
+                for o in cx.obs:
+                    if not o.trivial:
+                        print(f"  [{'ok' if o.ok else 'FAIL'}] {o.rule:7s} {o.func}: {o.construct}  -- {o.detail[:150]}")
         except Exception as e:
             import traceback
             tb = traceback.format_exc().strip().splitlines()
